@@ -88,11 +88,46 @@ def build_all():
 # ------------------------------------------------------------------ sharding
 
 
+def kill_group(p):
+    import signal
+
+    try:
+        os.killpg(os.getpgid(p.pid), signal.SIGKILL)
+    except (ProcessLookupError, PermissionError):
+        p.kill()
+
+
+def run_killable(cmd, timeout, **kw):
+    """subprocess.run(capture_output=True, text=True) that leaves nothing behind on timeout."""
+    p = subprocess.Popen(cmd, stdout=subprocess.PIPE, stderr=subprocess.PIPE, text=True, start_new_session=True,
+                         preexec_fn=_pdeathsig, **kw)
+    try:
+        out, err = p.communicate(timeout=timeout)
+    except subprocess.TimeoutExpired:
+        kill_group(p)
+        p.communicate()
+        raise
+    return subprocess.CompletedProcess(cmd, p.returncode, out, err)
+
+
+def _pdeathsig():
+    """Children must not outlive the check (e.g. when the check itself is killed by a time limit)."""
+    try:
+        import ctypes
+        import signal
+
+        ctypes.CDLL("libc.so.6", use_errno=True).prctl(1, signal.SIGKILL)  # PR_SET_PDEATHSIG
+    except Exception:
+        pass
+
+
 def _limit_as(n):
     def f():
-        import resource
+        _pdeathsig()
+        if n:
+            import resource
 
-        resource.setrlimit(resource.RLIMIT_AS, (n, n))
+            resource.setrlimit(resource.RLIMIT_AS, (n, n))
 
     return f
 
@@ -127,12 +162,13 @@ def _run_chunk(binary, engine, sd, a, b, tier, timeout, extra_args=(), env=None,
         stderr=subprocess.PIPE,
         text=True,
         env=e,
-        preexec_fn=_limit_as(rlimit_as) if rlimit_as else None,
+        preexec_fn=_limit_as(rlimit_as),
+        start_new_session=True,  # own process group: a stalled worker is killed with everything below it
     )
     try:
         out, err = p.communicate(timeout=timeout)
     except subprocess.TimeoutExpired:
-        p.kill()
+        kill_group(p)
         out, err = p.communicate()
         timed_out = True
     lines, last_begin = [], None
@@ -304,7 +340,7 @@ def replay_file(path, timeout=300):
     if (rec.get("env") or {}).get("LD_PRELOAD"):
         cmd = no_aslr_prefix() + cmd
     try:
-        r = subprocess.run(cmd, capture_output=True, text=True, timeout=timeout, env=rec_env(rec))
+        r = run_killable(cmd, timeout, env=rec_env(rec))
     except subprocess.TimeoutExpired:
         return {"reproduced": "/process/hang" in rec.get("key", ""), "key": rec.get("key"), "how": "timeout"}
     for line in r.stdout.splitlines():
@@ -390,7 +426,7 @@ def _proc_reproduces(rec, case, timeout):
         json.dump({"case": case, "engine": rec["engine"]}, f)
         path = f.name
     try:
-        r = subprocess.run([binary, rec["engine"], "--replay", path], capture_output=True, text=True, timeout=timeout, env=rec_env(rec))
+        r = run_killable([binary, rec["engine"], "--replay", path], timeout, env=rec_env(rec))
         return r.returncode not in (0, 1)
     except subprocess.TimeoutExpired:
         return "/process/hang" in rec["key"]
